@@ -32,13 +32,13 @@ def run(ck):
         ck.setcov("constants", "Objs={1,3 TS->1} wc in {off,on} modes RW/RO/DEGRO epochs 0..%d; Put GC Flush Epoch MarkDef InhumeCnr SetMode%s"
                   % ((3, " Delete MarkRed") if thorough else (1, "")))
     tp = os.path.join(ck.tmp, "ro.trace.ndjson")
-    n, ln = (1200, 16) if thorough else (48, 12)
+    n, ln = (400, 16) if thorough else (48, 12)
     env = {}
     if ck.replay:
         rp = json.load(open(ck.replay))["replay"]
         env = {"VERIF_SEED": str(rp.get("seed", ck.seed))}
         n, ln = rp.get("n", n), rp.get("len", ln)
-    p = ck.harness(binp, ["ro", n, ln, tp], timeout=2400, env_extra=env)
+    p = ck.harness(binp, ["ro", n, ln, tp], timeout=5400, env_extra=env)
     ck.log("harness: %s" % p.stdout.strip().splitlines()[-1])
     v = su.validate(ck, "TraceShard_C14.cfg", tp, timeout=2400, world=world)
     ev = v.events
